@@ -226,6 +226,7 @@ def report_call(acc, m, a, seed, order=None):
 # ------------------------------------------------------------------ the argument alphabet (DESIGN section 4, C05)
 RANDOM_ARGS = [[0, 1], [-1, 1], [0, P20], [-P20, P20], [5, 5 + E20], [P20 - E20, P20]]
 RANDINT_ARGS = [[0, 0], [0, 1], [-3, 3], [0, 2 ** 20]]
+NEG_INT_ARGS = [[-3, -1], [-10, -5], [-1, 0], [-1, 1], [-1000, -1]]      # entirely below zero / touching / straddling zero
 SEQS = [['a'], ['a', 'b'], ['a', 'b', 'c'], ['a', 'b', 'c', 'd', 'e', 'f', 'g']]
 WEIGHTS = [[1], [0, 1], [1, 0], [0, 0, 1], [.2, 0, .8], [1e-9, 1]]
 SHUFFLES = [[], [1], [1, 2], [1, 2, 3], [1, 2, 3, 4, 5]]
@@ -241,6 +242,11 @@ def boundary_specs():
     out = [('random', a) for a in RANDOM_ARGS]
     out += [('random', [-P20, -P20 + E20]), ('random', [1000, 1000.5]), ('random', [-0.5, 0.25]), ('random', [10.1, 10.1 + E20])]
     out += [('randint', a) for a in RANDINT_ARGS] + [('randint', [-2 ** 20, 2 ** 20])]
+    out += [('randint', a) for a in NEG_INT_ARGS]
+    # every batch method gets the interval alphabet of its scalar sibling (one-element batches; longer ones below)
+    out += [('randints', [1] + a) for a in RANDINT_ARGS + [[-2 ** 20, 2 ** 20]] + NEG_INT_ARGS]
+    out += [('randints', [3, -3, -1])]
+    out += [('randoms', [1] + a) for a in RANDOM_ARGS[2:5] + [[-P20, -P20 + E20], [1000, 1000.5], [-0.5, 0.25]]]
     out += [('choice', [s]) for s in SEQS]
     out += [('choice', [seq_for(w), w]) for w in WEIGHTS] + [('choice', [['x', 'y', 'z'], [0, 1, 0]]), ('choice', [['x', 'y'], [.5, .5]])]
     out += [('choicew', [seq_for(w), w]) for w in WEIGHTS] + [('choicew', [['x', 'y', 'z'], [0, 1, 0]])]
@@ -258,7 +264,8 @@ def boundary_specs():
 def orbit_passes():
     """thorough: (method, args, alignment) passes over the complete orbit, cheapest first.  For the orbit driver the
     specs 'gauss'/'gausses'/'randoms'/'randints' stand for a stream of n values from n uniforms."""
-    out = [('randoms', [None, -1, 1], 0), ('randints', [None, -3, 3], 0), ('gausses', [None], 0), ('gausses', [None], 1)]
+    out = [('randoms', [None, -1, 1], 0), ('randints', [None, -3, 3], 0), ('randints', [None, -3, -1], 0), ('randints', [None, -1000, -1], 0),
+           ('gausses', [None], 0), ('gausses', [None], 1), ('randint', [-3, -1], 0)]
     out += [('randint', a, 0) for a in RANDINT_ARGS]
     out += [('random', a, 0) for a in RANDOM_ARGS]
     out += [('choice', [s], 0) for s in SEQS]
@@ -467,6 +474,69 @@ def container_seeds():
     return out
 
 
+# ------------------------------------------------------------------ re-used, caller-owned argument objects on one generator
+# The caller keeps ONE sequence list and ONE weights list, hands the same objects to successive calls and changes them
+# in place in between.  Reference: a fresh generator of the same seed driven by the same calls with FRESH copies of the
+# current values - the results must be equal (a generator may not remember an argument object) and honour the contracts.
+REUSE_S0 = ['a', 'b', 'c', 'd']
+REUSE_W0 = [1, 0, 0, 0]
+REUSE_W = [[0, 1, 0, 0], [.25, .25, .25, .25], [0, 0, .5, .5]]
+REUSE_S = [['d', 'c', 'b', 'a'], ['a', 'a', 'b', 'b']]
+REUSE_OPS = ['cw', 'c', 'c0', 'cw0', 'sh', 'w0', 'w1', 'w2', 's0', 's1', 'r']
+REUSE_SEEDS = (1, 7)
+
+
+def run_reuse(seed, ops, fresh):
+    """-> [(result | ('exc', name), sequence values at the call, weights values at the call)]"""
+    r = CobaRandom(seed)
+    seq, w = list(REUSE_S0), list(REUSE_W0)
+    out = []
+    for op in ops:
+        a_seq = list(seq) if fresh else seq
+        a_w = list(w) if fresh else w
+        try:
+            if op == 'cw': res = r.choicew(a_seq, a_w)
+            elif op == 'c': res = r.choice(a_seq, a_w)
+            elif op == 'c0': res = r.choice(a_seq)
+            elif op == 'cw0': res = r.choicew(a_seq)
+            elif op == 'sh': res = r.shuffle(a_seq)
+            elif op == 'r': res = r.random()
+            elif op[0] == 'w': w[:] = REUSE_W[int(op[1])]; continue
+            else: seq[:] = REUSE_S[int(op[1])]; continue
+        except Exception as e:   # noqa
+            res = ('exc', type(e).__name__)
+        out.append((op, res, list(seq), list(w)))
+    return out
+
+
+_REUSE_SPEC = {'cw': ('choicew', True), 'c': ('choice', True), 'c0': ('choice', False), 'cw0': ('choicew', False), 'sh': ('shuffle', False)}
+
+
+def classify_reuse(seed, ops):
+    """[(key, what)] for one history of calls with re-used argument objects."""
+    ops = list(ops)
+    got = run_reuse(seed, ops, fresh=False)
+    ref = run_reuse(seed, ops, fresh=True)
+    changed = {o[0] for o in ops if o[0] in 'ws' and o not in ('sh',)}
+    what_changed = {frozenset(): 'without any in-place change', frozenset('w'): 'after an in-place change of the weights list',
+                    frozenset('s'): 'after an in-place change of the sequence list'}.get(frozenset(changed), 'after in-place changes of sequence and weights lists')
+    out = []
+    for (op, res, sv, wv), (_o, rres, _s, _w) in zip(got, ref):
+        if op == 'r': 
+            if res != rres: out.append((f'reuse|random() differs from the run with fresh argument objects|{what_changed}', f'CobaRandom({seed}) ops {ops}: {res!r} vs {rres!r}')); break
+            continue
+        m, weighted = _REUSE_SPEC[op]
+        if isinstance(res, tuple) and res and res[0] == 'exc':
+            out.append((f'{m}|raises {res[1]}|re-used argument objects; {what_changed}', f'CobaRandom({seed}) ops {ops}: {op} raised {res[1]}')); break
+        mode = judge(m, [sv, wv] if weighted else [sv], res)
+        if mode:
+            out.append((f'{m}|{mode}|re-used argument objects; {what_changed}', f'CobaRandom({seed}) ops {ops}: {op} on {sv!r}' + (f' with weights {wv!r}' if weighted else '') + f' returned {res!r}')); break
+        if res != rres:
+            out.append((f'reuse|{m} returns other values than with fresh argument objects of equal values|{what_changed}',
+                        f'CobaRandom({seed}) ops {ops}: {op} returned {res!r}, with fresh list objects {rres!r}')); break
+    return out
+
+
 # ------------------------------------------------------------------ HIST: purity under interleaving
 INST = (('A', 1), ('B', 1), ('C', 2.5))
 INST_SEED = dict(INST)
@@ -477,7 +547,7 @@ CALLS = {           # one letter per public method and per code path inside it
     'randoms2':  lambda r: r.randoms(2, 1, 3),
     'randint':   lambda r: r.randint(0, 5),
     'randints':  lambda r: r.randints(2, 0, 5),
-    'randints2': lambda r: r.randints(2, -2, 2),
+    'randints2': lambda r: r.randints(2, -3, -1),
     'shuffle':   lambda r: r.shuffle([1, 2, 3]),
     'shufflei':  lambda r: r.shuffle([1, 2, 3], inplace=True),
     'choice':    lambda r: r.choice([1, 2, 3]),
@@ -490,7 +560,7 @@ CALLS = {           # one letter per public method and per code path inside it
 # the same calls as (method, args) specs, so that the contract predicates can be applied to what a history returns
 HIST_SPECS = {
     'random': ('random', [0, 1]), 'random2': ('random', [-1, 1]), 'randoms': ('randoms', [2, 0, 1]), 'randoms2': ('randoms', [2, 1, 3]),
-    'randint': ('randint', [0, 5]), 'randints': ('randints', [2, 0, 5]), 'randints2': ('randints', [2, -2, 2]),
+    'randint': ('randint', [0, 5]), 'randints': ('randints', [2, 0, 5]), 'randints2': ('randints', [2, -3, -1]),
     'shuffle': ('shuffle', [[1, 2, 3]]), 'shufflei': ('shuffle', [[1, 2, 3]]), 'choice': ('choice', [[1, 2, 3]]),
     'choice2': ('choice', [[1, 2, 3], [.2, .3, .5]]), 'choicew': ('choicew', [[1, 2, 3]]), 'choicew2': ('choicew', [['x', 'y', 'x'], [0, .5, .5]]),
     'gauss': ('gausses', [1]), 'gausses': ('gausses', [3]),
@@ -698,10 +768,11 @@ class C05(Check):
             '(start by LCG jump-ahead, every value consumed from the real object, blockwise and segmentwise closure check; states = '
             'transitions = 2^30 when all segments complete; HIST figures are in counters.hist_*); boundary cases = 2 sides x 32 blocks '
             'of 2^11 states: every one of the 2^16 smallest and 2^16 largest states is placed at every draw position of every (method, '
-            'arguments) of the alphabet (random x 10 bound pairs, randint x 5, choice/choicew x sequences len 0..7 x weights incl. zeros, '
+            'arguments) of the alphabet (random x 10 bound pairs, randint x 10 and randints/randoms over the same intervals as their scalar siblings (incl. intervals entirely below zero), choice/choicew x sequences len 0..7 x weights incl. zeros, '
             'incl. equal members with different weights, shuffle n in {0,1,2,3,5}, gauss pair, randoms/randints/gausses) on a fresh real object; thorough adds one full-orbit pass '
             'per (method, arguments, alignment), cheapest first, until the time budget is used (completed passes listed in evidence). '
             'container cases: shuffle x 11 input container types (list, tuple, range, str, iterator, generator, map, dict views, set, deque) x lengths 0..3 x inplace (lists), choice/choicew x 4 sequence types x lengths 1..3 x weights {none, list, tuple}, each on 768 states (256 lowest, 256 highest as first draw, seeds 0..255); '
+            're-use cases: every history of length <=4 (thorough <=5) over 11 operations on ONE generator (seeds 1, 7) whose sequence and weights arguments are the same two caller-owned list objects, changed in place between calls (choice/choicew weighted and unweighted, shuffle, random, 3 weight vectors, 2 sequences), compared with a fresh generator given fresh copies of the current values; '
             '(b) HIST: every history of length <=4 over 39 letters (thorough adds every history of length 5 over a 22-letter and of length 6 over an 11-letter sub-alphabet): {A=CobaRandom(1), '
             'B=CobaRandom(1)} x 15 calls (every public method and code path), C=CobaRandom(2.5) x 3 calls, module-level seed/random/shuffle, stdlib random/seed, construction of a '
             'further instance; cases = history prefixes of length <=2, each case runs all its extensions; plus 17 seeds constructed twice '
@@ -719,6 +790,7 @@ class C05(Check):
         'purity reference = the same real class driven alone in the same process (differential); the effect of coba on stdlib random is not constrained',
         'time is a virtual clock (coba.random.time replaced) in-process, the real clock in the subprocesses; 1 and 1.0 are not required to be the same seed',
         'HIST explores histories, no state merging (generator frames are hidden state)',
+        'a generator must not remember argument objects: calls that re-use a caller-owned list (changed in place or not) must return what the same calls with fresh lists of equal values return on a fresh generator of the same seed',
     ]
     TECHNIQUE = ('explicit traversal of the complete 2^30-state space of the real generator object (LCG jump-ahead segment starts, closure check) with per-state '
                  'contract predicates, plus exhaustive enumeration of call interleavings on real instances against the same class driven alone')
@@ -746,6 +818,8 @@ class C05(Check):
         for l in LETTERS: yield {'part': 'hist', 'alpha': 'full', 'prefix': [l], 'depth': 1}
         yield {'part': 'boundary', 'side': 'low', 'block': 0}
         yield {'part': 'boundary', 'side': 'high', 'block': 0}
+        for sd in REUSE_SEEDS:
+            for o in REUSE_OPS: yield {'part': 'reuse', 'seed': sd, 'prefix': [o], 'depth': 4 if tier == 'quick' else 5}
         for c in SHUFFLE_CTYPES: yield {'part': 'containers', 'm': 'shuffle', 'ctype': c}
         for m in ('choice', 'choicew'):
             for c in CHOICE_CTYPES: yield {'part': 'containers', 'm': m, 'ctype': c}
@@ -771,6 +845,10 @@ class C05(Check):
         elif part == 'hist': self.run_hist(case, acc)
         elif part == 'boundary': self.run_boundary(case, acc)
         elif part == 'containers': self.run_containers(case, acc)
+        elif part == 'reuse': self.run_reuse_case(case, acc)
+        elif part == 'reuse-one':
+            acc.mark_nontrivial()
+            for key, what in classify_reuse(case['seed'], case['ops']): acc.violation(key, what, case)
         elif part == 'container':
             container_call(acc, case['m'], case['ctype'], case['n'], case['inplace'], case['wtype'], case['seed']); acc.mark_nontrivial()
         elif part == 'orbit-block':
@@ -880,6 +958,13 @@ class C05(Check):
         if interleaved: acc.mark_nontrivial()
 
     def minimise(self, key, witness):
+        if isinstance(witness, dict) and witness.get('part') == 'reuse-one':
+            ops = list(witness['ops']); i = 0
+            while i < len(ops):
+                trial = ops[:i] + ops[i + 1:]
+                if trial and any(k == key for k, _ in classify_reuse(witness['seed'], trial)): ops = trial
+                else: i += 1
+            return {'part': 'reuse-one', 'seed': witness['seed'], 'ops': ops}
         if not isinstance(witness, dict) or witness.get('part') != 'history': return witness
         ops = list(witness['ops'])
         i = 0
@@ -890,6 +975,31 @@ class C05(Check):
         return {'part': 'history', 'ops': ops}
 
     # -------------------------------------------------------------- (a) container types of the sequence arguments
+    def run_reuse_case(self, case, acc):
+        seed, prefix, depth = case['seed'], tuple(case['prefix']), case['depth']
+        nh = nt = reported = 0
+        results = set()
+        for e in itertools.chain([()], histories(REUSE_OPS, depth - len(prefix))):
+            ops = prefix + e
+            nh += 1; nt += len(ops)
+            got = run_reuse(seed, ops, fresh=False)
+            ref = run_reuse(seed, ops, fresh=True)
+            bad = [g[1] for g in got] != [g[1] for g in ref]
+            if not bad:
+                for op, res, sv, wv in got:
+                    if op == 'r': continue
+                    m, weighted = _REUSE_SPEC[op]
+                    if (isinstance(res, tuple) and res and res[0] == 'exc') or judge(m, [sv, wv] if weighted else [sv], res): bad = True; break
+            if len(ops) <= 3: results.add(repr([g[1] for g in got]))
+            if bad and reported < 3:
+                reported += 1
+                for key, what in classify_reuse(seed, ops):
+                    acc.violation(key, what, {'part': 'reuse-one', 'seed': seed, 'ops': list(ops)}, order=(len(ops), acc._cur[0], nh))
+        acc.count('reuse_histories', nh); acc.count('reuse_operations', nt)
+        acc.traces += nh
+        acc.outcome(('reuse', seed, prefix[0], len(results)))
+        if len(results) >= 2: acc.mark_nontrivial()
+
     def run_containers(self, case, acc):
         m, ctype = case['m'], case['ctype']
         ncalls = 0
